@@ -280,6 +280,7 @@ def fill_deck(rnd, depth=1, reuse=False, spelling=None, inner='slab', nsym=3):
     rest = tuple(('cell', c.id) for c in conts)
     new_cell(expr=('and',) + rest if len(rest) > 1 else rest[0], imp=0)
     # order cells: MCNP does not care; keep creation order
+    d.dot_spelling = rnd.random() < 0.35       # ".5" for "0.5" everywhere in the deck
     return d, pre
 
 
@@ -380,7 +381,7 @@ def like_deck(rnd, scenario, nsym=3):
 
 
 # ------------------------------------------------------------------ rectangular lattices
-def lattice_deck(rnd, dims=2, nsym=3, variant='array', skew=False):
+def lattice_deck(rnd, dims=2, nsym=3, variant='array', skew=False, cellform='planes', second=False):
     """container (level 0) filled with universe 5 = one LAT=1 cell whose elements are filled from an array."""
     d = dk.Deck()
     pre = []
@@ -398,11 +399,23 @@ def lattice_deck(rnd, dims=2, nsym=3, variant='array', skew=False):
     rnd.shuffle(axes)
     leaves = []
     sid = 0
+    box = {}
+    if cellform == 'body':
+        axes = ['px', 'py', 'pz']
     for ax in axes:
         lo = bud.num('lo' + ax[1], pre, choices=[-1, Fr(-1, 2), 0])
         pitch = bud.num('p' + ax[1], pre, positive=True, choices=[1, 2, Fr(3, 2)])
         hi = (lo if isinstance(lo, RatFn) else RatFn.const(lo)) + (pitch if isinstance(pitch, RatFn) else RatFn.const(pitch))
         hi = hi.as_const() if hi.as_const() is not None else hi
+        if cellform in ('facets', 'body'):
+            # the unit cell is (part of) the box RPP 20, written with its facets n.1 ... n.6 or as the whole body
+            box[ax] = (lo, hi)
+            k = 'xyz'.index(ax[1])
+            pair = [('s', -20, 2 * k + 1), ('s', -20, 2 * k + 2)]
+            if rnd.random() < 0.5:
+                pair.reverse()
+            leaves += pair
+            continue
         if skew and ax == axes[0] and dims >= 2:
             # skew pair: planes x + y/2 = lo, hi  (normal (1, 1/2, 0) in the xy plane, or rotated accordingly)
             nrm = {'px': (1, Fr(1, 2), 0), 'py': (Fr(1, 2), 1, 0), 'pz': (0, Fr(1, 2), 1)}[ax]
@@ -418,7 +431,14 @@ def lattice_deck(rnd, dims=2, nsym=3, variant='array', skew=False):
         if rnd.random() < 0.5:
             pair.reverse()
         leaves += pair
-    lat = dk.Cell(2, ('and',) + tuple(leaves), imp=1, u=5, lat=1)
+    if box:
+        prm = []
+        for ax in ('px', 'py', 'pz'):
+            prm += list(box.get(ax, (Fr(-4), Fr(5))))
+        d.surfs.append(dk.Surf(20, 'rpp', prm))
+        if cellform == 'body':
+            leaves = [('s', -20)]
+    lat = dk.Cell(2, ('and',) + tuple(leaves) if len(leaves) > 1 else leaves[0], imp=1, u=5, lat=1)
     if rnd.random() < 0.3:
         lat.trcl = rand_tr(rnd, 'lt', pre, budget=bud, rot=True)       # the lattice cell itself may carry a TRCL
     # index ranges
@@ -468,7 +488,27 @@ def lattice_deck(rnd, dims=2, nsym=3, variant='array', skew=False):
         lat.fill = rnd.choice([2, 3])
         d.lattice_opt = ['2,' + ','.join('%d:%d' % r for r in ranges)]
     d.cells.insert(1, lat)
-    d.cells.append(dk.Cell(99, ('s', 50), imp=0))
+    outside = ('s', 50)
+    if second:
+        # a second, different lattice in the same deck (same number of index ranges, other pitch)
+        d.surfs.append(dk.Surf(70, 's', [Fr(30), Fr(0), Fr(0), Fr(2)]))
+        d.surfs += [dk.Surf(71, 'px', [Fr(245, 8)]), dk.Surf(72, 'px', [Fr(235, 8)])]
+        d.cells.append(dk.Cell(3, ('s', -70), imp=1, fill=6))
+        pair = [('s', -71), ('s', 72)]
+        if rnd.random() < 0.5:
+            pair.reverse()
+        nm += 1
+        d.mats[nm] = [('13027', '1.0')]
+        lat2 = dk.Cell(4, ('and',) + tuple(pair), mat=nm, rho='-8.0', imp=1, u=6, lat=1)
+        r2 = [(-1, 1)] + [(0, 0)] * (len(ranges) - 1)
+        lat2.fill = dk.LatFill(r2, rnd.choice([[1, 6, 1], [6, 1, 0], [1, 1, 6]]))
+        if variant != 'array':
+            d.lattice_opt.append('4,' + ','.join('%d:%d' % r for r in r2))
+            lat2.fill = 1
+        d.cells.insert(1 if rnd.random() < 0.5 else 2, lat2)
+        outside = ('and', ('s', 50), ('s', 70))
+    d.cells.append(dk.Cell(99, outside, imp=0))
+    d.dot_spelling = rnd.random() < 0.25
     return d, pre
 
 
